@@ -1040,3 +1040,9 @@ impl SigCache {
         }
     }
 }
+
+// Native tests for the private items of this module live outside the repository.
+#[cfg(all(test, nlnetlabs_domain_verif))]
+mod verif_native {
+    include!("/verif/native/incrate/validator_group.rs");
+}
